@@ -8,7 +8,7 @@
      point of every history, but they say nothing about what several steps achieve together.
    * HISTORY theorems ("forall s0 h ... run s0 h") are proved by induction over the event
      list (an invariant preserved by [step], lifted over [run]): C13_root_never_closed,
-     C13_moves_only_on_command_or_parent, C13_index_stays_complete,
+     C13_state_moves_have_a_cause, C13_index_stays_complete,
      C13_closed_only_when_no_podgroup_exists.
    * The QUIESCENCE statements (what holds once the lister has caught up and nothing is
      pending) are FALSE for this controller; their refutations are at the end and are the
@@ -29,26 +29,47 @@ Theorem C13_state_changes_only_by_request : forall s e q a b,
 Proof. exact only_by_request. Qed.
 Print Assumptions C13_state_changes_only_by_request.
 
-(* HISTORY (induction over the event list, invariant [wq_wf]): along every history from a
-   start state whose pending handler-born requests are Syncs, a queue's state moves only
-   while a request for it is processed that stems from a command (Event CommandIssued),
-   from parent/child propagation (Event ""), or is an informer handler's Sync — and then
-   to the target of the state tables *)
-Theorem C13_moves_only_on_command_or_parent : forall s0 h e q a b, let s := run s0 h in
-  wq_wf s0 ->
+(* HISTORY (induction over the event list: invariant [origin] on every pending request).
+   From a start state with an EMPTY work queue, after any history h: whenever the state of
+   queue q moves, a request r for q is being processed, the new state is the target the
+   state tables give for the lister's state, r's action and q's PodGroup count, and r has a
+   CAUSE in h ([origin]): (a) Event CommandIssued and the command [ECmd q (r_act r)] occurs in
+   h; or (b) a propagated Open / Close that was appended earlier in h while a request for q's
+   lister-parent (the parent's close / re-open) or for q itself (q's own sync reacting to the
+   parent's state in the lister) was processed; or (c) an informer handler's Sync, whose
+   effect is the Sync target: "" -> Open, Closing -> Closed iff q's index is empty, otherwise
+   the state the lister shows (under lag that last case is finding race A). *)
+Theorem C13_state_moves_have_a_cause : forall s0 h e q a b, let s := run s0 h in
+  wq s0 = [] ->
   sst (srv s) q = Some a -> sst (srv (step s e).1) q = Some b -> a <> b ->
   exists r v, proc_of s e = Some (r, v) /\ r_q r = q /\
     b = target (q_state v) (r_act r) (length (pgs_of (idx s) q)) /\
-    (r_ev r = EvCmd \/ r_ev r = EvNone \/ (r_ev r = EvOutOfSync /\ r_act r = ASync)).
-Proof. exact moves_only_on_command_or_parent. Qed.
-Print Assumptions C13_moves_only_on_command_or_parent.
+    origin s0 h r.
+Proof. exact state_moves_have_a_cause. Qed.
+Print Assumptions C13_state_moves_have_a_cause.
 
-(* STEP: processing a request appends to the work queue only propagation requests
-   (Event "", Open / Close, no retries yet) followed by at most the retry of the processed
-   request (the Prop form of the core of law 108) *)
+(* the start-state hypothesis is needed (a pending propagation request of unknown origin
+   closes an unrelated queue), and the three kinds of cause occur *)
+Example C13_cause_needs_empty_start :
+  let s0 := mkSt (srv (open3_init SOpen None)) (lst (open3_init SOpen None)) ∅ [] [mkReq q3 AClose EvNone 0] 3 in
+  sst (srv (run s0 [EProc 0])) q3 = Some SClosed.
+Proof. exact cause_needs_empty_start. Qed.
+Example C13_causes_occur :
+  let s0 := open3_init SOpen None in
+  origin s0 [ECmd q2 AClose] (mkReq q2 AClose EvCmd 0) /\
+  wq (run s0 [ECmd q2 AClose; EProc 0]) = [mkReq q3 AClose EvNone 0] /\
+  origin s0 [ECmd q2 AClose; EProc 0] (mkReq q3 AClose EvNone 0).
+Proof. exact causes_occur. Qed.
+
+(* STEP: processing a request for queue q appends to the work queue only propagation
+   requests — Event "", Open / Close, no retries yet, TARGET q itself or a queue the lister
+   shows as a child of q — followed by at most the retry of the processed request (the Prop
+   form of law 108 without its state / marker guards) *)
 Theorem C13_processing_appends_only_propagation_requests : forall s i r,
   nth_error (wq s) i = Some r ->
-  exists l t, wq (proc s i).1 = remove_nth i (wq s) ++ l ++ t /\ Forall prop_req l /\ (t = [] \/ t = [retry r]).
+  exists l t, wq (proc s i).1 = remove_nth i (wq s) ++ l ++ t /\
+              Forall (prop_req_at (lst s) (r_q r)) l /\ (t = [] \/ t = [retry r]) /\
+              (l = [] \/ is_Some (lst s !! r_q r)).
 Proof. exact proc_emits. Qed.
 Print Assumptions C13_processing_appends_only_propagation_requests.
 
@@ -227,7 +248,10 @@ Proof. exact raceC_repaired. Qed.
    during that processing step) are events like any other: EVERY theorem above that
    quantifies over an event [e] (state changes only by request, Closed only when empty,
    Sync never opens or closes, root never closed, provenance, index completeness) holds for
-   faulted steps too.  A faulted queue keeps its server object: ---------- *)
+   faulted steps too.  The STEP theorems that promise a result (close yields Closing /
+   Closed, close propagates, re-open exact, no open under a closed parent) are stated for
+   un-faulted steps [proc s i] only; laws 102/104/105/107/132 skip faulted steps.
+   A faulted queue keeps its server object: ---------- *)
 Theorem C13_fault_keeps_queue : forall s i c o,
   srv s !! c = Some o -> srv (step s (EProcF i c)).1 !! c = Some o.
 Proof. exact fault_keeps_queue. Qed.
@@ -283,6 +307,11 @@ Example C13_quiescent_open_child_both_orders :
   caught_up sE = true /\ sst (srv sE) q2 = Some SClosed /\ sst (srv sE) q3 = Some SOpen /\
   law_children_follow_closed_parent sE = false.
 Proof. exact quiescent_open_child_both_orders. Qed.
+
+(* the premises of the history theorems hold of a controller that starts with nothing pending *)
+Example C13_start_state_premises :
+  let s0 := open3_init SOpen None in idx_complete s0 /\ root_okP s0 /\ wq s0 = [].
+Proof. exact start_state_premises. Qed.
 
 (* the extracted law checkers accept every step of the model *)
 Theorem C13_laws_accept_model : forall s e,
